@@ -517,6 +517,18 @@ class Interp:
             return r.v
 
     def mcall(self, n, env):
+        if n["m"] in ("clear", "truncate", "pop") and len(n["args"]) <= 1:
+            r = n["recv"]
+            while r["k"] in ("Ref",) or (r["k"] == "Un" and r["op"] == "*"):
+                r = r["e"]
+            if r["k"] == "Path" and r.get("rk") == "Local" and r["res"] in env and isinstance(env[r["res"]], str):
+                cur = env[r["res"]]
+                if n["m"] == "clear":
+                    env[r["res"]] = ""
+                    return ()
+                if n["m"] == "pop" and not n["args"]:
+                    env[r["res"]] = cur[:-1]
+                    return some(cur[-1]) if cur else NONE
         if n["m"] in ("push", "push_str") and len(n["args"]) == 1:
             r = n["recv"]
             while r["k"] in ("Ref",) or (r["k"] == "Un" and r["op"] == "*"):
@@ -894,6 +906,11 @@ class Interp:
             a = self.ev(n["args"][0], env)
             if not isinstance(a, Opaque) and all(not isinstance(x, Opaque) for x in recv):
                 return a in recv
+        if isinstance(recv, (list, ListIter)) and m == "nth" and len(n["args"]) == 1:
+            items = recv if isinstance(recv, list) else recv.items[recv.pos:]
+            i = self.ev(n["args"][0], env)
+            if isinstance(i, int) and not isinstance(i, bool):
+                return some(items[i]) if 0 <= i < len(items) else NONE
         if isinstance(recv, list) and m == "get" and len(n["args"]) == 1:
             i = self.ev(n["args"][0], env)
             if isinstance(i, int):
